@@ -17,11 +17,22 @@ signature file *.gs; the original is only read once, to make the copy, and re-ha
            `load_signatures` / `load_signatures_hdf5` (default mode, explicit 'r'; contrast 'r+' on a
            private copy); writes are attribute / dataset / create_dataset writes through the h5py
            handle.  Model op 1802.
+           in-place  (operations 6 and 7) the caller TAKES arrays from the opened signature object the way a
+           read-side client does -- sigs[i], sigs[-i], sigs[np.int64(i)], sigs[a:b].values, rows of
+           sigs[a:b], sigs[a:], stepped slices, index lists, boolean masks, iteration / reversed(),
+           sigs.values[a:b], sigs.bounds[a:b], np.asarray(sigs.values), sigs[:] -- and then post-processes
+           the RETURNED arrays IN PLACE (+=, fill, sort, ufunc(out=), item / slice assignment, ^=,
+           byteswap(inplace), copyto, put, putmask, clip(out=), a write through arr.view(uint8) ...),
+           possibly again after the handle was closed (operation 7: the arrays outlive the handle).  No
+           API of the library or of h5py is asked to write anything: in the model this is a read (SRead)
+           followed by a computation on a private value, so the file must not change by a single byte.
   history  sequences of invocations, in process: `gambit -d DB query` (csv/json/archive, genome files
            or -s SIGFILE), `dist --use-db`, `signatures info -d` (plain/-j/-i), `signatures info FILE`,
            `signatures create --db-params`, `tree -s DB/x.gs`, `ReferenceDatabase.load_from_dir` +
-           signature iteration + a library query, arbitrary ORM edits on a default session, arbitrary
-           handle operations -- each possibly FAILING: bad argument, unreadable query file, unwritable
+           signature iteration + a library query (query signatures taken as an index list or as a
+           contiguous slice of the reference signatures) + in-place post-processing of the arrays obtained
+           from db.signatures (same selections / numpy operations as `in-place` above), arbitrary ORM edits
+           on a default session, arbitrary handle operations -- each possibly FAILING: bad argument, unreadable query file, unwritable
            output, or an exception injected at the n-th SQL statement (a failure in the middle of the
            command).  Snapshot before/after every invocation, journal check after every SQL statement,
            class of every session that begins a transaction (its two overrides are determined
@@ -44,9 +55,12 @@ import shutil
 PROP = 'C18'
 RULE = ('session: (how the session was obtained, autoflush, operation list) -> per-operation observables; non-trivial: '
         'a pending edit (add/modify/delete that succeeded) is followed by a query, flush, commit or transaction-commit. '
-        'store: (operation list) ; non-trivial: a write or delete is attempted on an open handle. '
+        'store: (operation list) ; non-trivial: a write or delete is attempted on an open handle, or (stream '
+        'store-inplace / store-inplace-random) an array of >= 1 element RETURNED by indexing / slicing / iterating the '
+        'opened signature object was modified in place and the modification took effect on the caller\'s array. '
         'history: list of invocations with failure points; non-trivial: >= 2 invocations of which >= 1 reads the '
-        'database to completion and >= 1 fails or edits')
+        'database to completion and >= 1 fails or edits (an edit is an ORM edit, a handle operation, or an effective '
+        'in-place modification of an array obtained from ReferenceDatabase.signatures: stream history-inplace)')
 TRUSTED = ['SQLite / pysqlite: a connection that executes only SELECT/PRAGMA does not write to the file (explored: '
            'SHA-256, size, mtime, journal after every step; not proved)',
            'libhdf5 / h5py: a file opened in mode r is not written (explored likewise); h5py.File default mode is r '
@@ -55,6 +69,14 @@ TRUSTED = ['SQLite / pysqlite: a connection that executes only SELECT/PRAGMA doe
            'objects goes through self.flush() (query autoflush, SessionTransaction.commit, begin_nested) -- the '
            'session machine of Model/C18.v; validated operation by operation against the real Session',
            'harness recorders: Engine before/after_cursor_execute, Session after_begin, wrapper of h5py.File.__init__',
+           'in-place stream: the arrays a caller obtains from the signature object (int / negative / numpy-int index, '
+           'contiguous / open / stepped slice and its .values / .bounds / rows, index list, boolean mask, iteration, '
+           'reversed(), .values[a:b], .bounds[a:b], np.asarray(.values)) are modelled as private values (Model/C18.v SRead '
+           'returns a value, the store is unchanged), so modifying them is not a store operation; explored on the real '
+           'objects with 17 numpy in-place operations: SHA-256/size/mtime of both files after every such step, also when the '
+           'arrays outlive the handle. That a write through a shared file mapping is seen at once by the hashing is '
+           'asserted on every run on a private copy (extra.mmap_write_detected); an array the implementation hands out '
+           'read-only (the operation raises) is not judged',
            'the mapping invocation -> micro operations (Model/C18.v compile) is a summary of the CLI code paths; only '
            'its observable consequences (sessions opened, handle modes, nothing written) are compared']
 ASSUMPTIONS = ['no other process writes to the data base directory while a command runs',
@@ -288,6 +310,7 @@ def setup(ctx):
 	_env()
 	for a in ASSUMPTIONS:
 		ctx.assume(a)
+	_selfcheck_mmap(ctx)
 
 
 def finish(ctx):
@@ -556,6 +579,202 @@ def k_session(ctx, cases):
 
 
 # ------------------------------------------------------------------------------------------------
+# arrays handed out by the signature object, post-processed in place by the caller
+# ------------------------------------------------------------------------------------------------
+
+SEL_NAMES = {0: 'sigs[i]', 1: 'sigs[i-n]', 2: 'sigs[np.int64(i)]', 3: 'sigs[i:j].values', 4: 'rows of sigs[i:j]',
+             5: 'sigs[i:].values', 6: 'sigs[i:j:2].values', 7: 'sigs[[i,..]].values', 8: 'sigs[mask].values',
+             9: 'for sig in sigs', 10: 'sigs.values[a:b]', 11: 'sigs.bounds[i:j]', 12: 'np.asarray(sigs.values)',
+             13: 'sigs[:] (.values, .bounds)', 14: 'reversed(sigs)', 15: 'sigs[:j].values and .bounds'}
+MUT_NAMES = {0: 'a += 1', 1: 'a.fill(0)', 2: 'a[::-1].sort()', 3: 'np.add(a, 1, out=a)', 4: 'a[...] = 7', 5: 'a ^= 1',
+             6: 'np.multiply(a, 3, out=a)', 7: 'a[0] += 1', 8: 'a.byteswap(inplace=True)', 9: 'np.copyto(a, a[::-1].copy())',
+             10: 'a.sort()', 11: 'a.put(range(0, n, 2), 0)', 12: 'np.subtract(a, a, out=a)', 13: 'a.view(uint8).fill(0xAA)',
+             14: 'np.putmask(a, a >= 0, 1)', 15: 'a.clip(0, 1, out=a)', 16: 'a[1::2] = a[::2][:len(a[1::2])]'}
+NSEL, NMUT = len(SEL_NAMES), len(MUT_NAMES)
+
+
+def _take(sigs, sel, i, w):
+	"""the arrays a read-side caller obtains from an (opened) signature object -- the RETURNED objects themselves"""
+	import numpy as np
+	n = len(sigs)
+	i = int(i) % n
+	w = 1 + int(w) % 8
+	j = min(n, i + w)
+	sel = int(sel) % NSEL
+	if sel == 0:
+		out = [sigs[i]]
+	elif sel == 1:
+		out = [sigs[i - n]]
+	elif sel == 2:
+		out = [sigs[np.int64(i)]]
+	elif sel == 3:
+		out = [sigs[i:j].values]
+	elif sel == 4:
+		sub = sigs[i:j]
+		out = [sub[0], sub[len(sub) - 1]]
+	elif sel == 5:
+		out = [sigs[i:].values]
+	elif sel == 6:
+		out = [sigs[i:min(n, i + 2 * w):2].values]
+	elif sel == 7:
+		out = [sigs[[i, (i + w) % n, (i * 7 + 3) % n]].values]
+	elif sel == 8:
+		mask = np.zeros(n, dtype=bool)
+		mask[i:j] = True
+		mask[(i * 7 + 3) % n] = True
+		out = [sigs[mask].values]
+	elif sel == 9:
+		out = [sig for sig, _ in zip(sigs, range(w))]
+	elif sel == 10:
+		a, b = int(sigs.bounds[i]), int(sigs.bounds[j])
+		out = [sigs.values[a:b]]
+	elif sel == 11:
+		out = [sigs.bounds[i:j + 1]]
+	elif sel == 12:
+		out = [np.asarray(sigs.values)]
+	elif sel == 13:
+		sub = sigs[:]
+		out = [sub.values, sub.bounds]
+	elif sel == 14:
+		out = [sig for sig, _ in zip(reversed(sigs), range(w))]
+	else:
+		sub = sigs[:j]
+		out = [sub.values, sub.bounds]
+	return [a for a in out if isinstance(a, np.ndarray)]
+
+
+def _mutate(a, mut):
+	"""modify the caller's array in place (ordinary numpy practice); -> True iff the array now differs"""
+	import numpy as np
+	mut = int(mut) % NMUT
+	if a.size == 0:
+		return False
+	before = np.array(a, copy=True)
+	if mut == 0:
+		a += 1
+	elif mut == 1:
+		a.fill(0)
+	elif mut == 2:
+		a[::-1].sort()
+	elif mut == 3:
+		np.add(a, 1, out=a)
+	elif mut == 4:
+		a[...] = 7
+	elif mut == 5:
+		a ^= 1
+	elif mut == 6:
+		np.multiply(a, 3, out=a)
+	elif mut == 7:
+		a[0] += 1
+	elif mut == 8:
+		a.byteswap(inplace=True)
+	elif mut == 9:
+		np.copyto(a, a[::-1].copy())
+	elif mut == 10:
+		a.sort()
+	elif mut == 11:
+		a.put(range(0, a.size, 2), 0)
+	elif mut == 12:
+		np.subtract(a, a, out=a)
+	elif mut == 13:
+		a.view(np.uint8).fill(0xAA)
+	elif mut == 14:
+		np.putmask(a, a >= 0, 1)
+	elif mut == 15:
+		a.clip(0, 1, out=a)
+	else:
+		m = len(a[1::2])
+		a[1::2] = a[::2][:m].copy()
+	return not np.array_equal(before, a)
+
+
+def _mutate_all(arrays, mut):
+	"""-> number of arrays effectively modified.  An array that refuses (read-only, ...) is the implementation's
+	business and is not judged: the property constrains the files, not the writability of what is handed out."""
+	eff = 0
+	for a in arrays:
+		try:
+			if _mutate(a, mut):
+				eff += 1
+		except Exception:
+			pass
+	return eff
+
+
+def _sig_damage(gs):
+	"""for the message of a violation only: what a FRESH load of the signature file returns now, compared with the
+	pristine copy (read with plain h5py)"""
+	import numpy as np
+	import h5py
+	from gambit.sigs.base import load_signatures
+	try:
+		with h5py.File(os.path.join(_S['pristine'], 'ref-signatures.gs'), 'r') as f:
+			values, bounds = f['values'][:], f['bounds'][:]
+		with load_signatures(gs) as sg:
+			n = len(sg)
+			got = [np.array(sg[k], copy=True) for k in range(n)]
+		if n != len(bounds) - 1:
+			return f'a fresh load_signatures() now returns {n} signatures instead of {len(bounds) - 1}'
+		bad = [k for k in range(n) if not np.array_equal(got[k], values[bounds[k]:bounds[k + 1]])]
+		del got
+		if not bad:
+			return 'a fresh load_signatures() still returns the original signatures'
+		return (f'a fresh load_signatures() now returns {len(bad)} of {n} signatures changed '
+		        f'(indices {bad[:6]}{" ..." if len(bad) > 6 else ""})')
+	except Exception as e:
+		return f'a fresh load_signatures() now fails: {type(e).__name__}: {str(e)[:80]}'
+	finally:
+		gc.collect()
+
+
+def _with_damage(df, gs):
+	if any(x.startswith('ref-signatures.gs') for x in df):
+		return '; '.join(df) + ' -- ' + _sig_damage(gs)
+	return '; '.join(df)
+
+
+def _selfcheck_mmap(ctx):
+	"""detector alive: a write through a shared mapping of a PRIVATE copy of the signature file (what an in-place
+	modification of a file-backed array amounts to) is seen by the snapshot at once, before unmapping"""
+	import numpy as np
+	import h5py
+	d = _private()
+	try:
+		gs = os.path.join(d, 'ref-signatures.gs')
+		base = _snap(d)
+		with h5py.File(gs, 'r') as f:
+			ds = f['values']
+			off, shape, dtype = ds.id.get_offset(), ds.shape, ds.dtype
+		if off is None or not shape or not shape[0]:
+			ctx.extra['mmap_write_detected'] = 'not applicable: values dataset is not one contiguous block'
+			return
+		mm = np.memmap(gs, dtype=dtype, mode='r+', offset=off, shape=shape)
+		a = mm[10:20]
+		a += 1
+		seen = bool(_diff(base, _snap(d)))
+		del a, mm
+		gc.collect()
+		ctx.extra['mmap_write_detected'] = seen
+		if not seen:
+			ctx.broke('harness self-check (in-place stream)', 'a write through a shared mapping of a private copy of the '
+			          'signature file was not seen by the snapshot: the in-place stream cannot detect anything here')
+	finally:
+		shutil.rmtree(d, ignore_errors=True)
+
+
+def _model_sops(ops):
+	"""store operations as the model sees them: take-and-modify (6) is a read of the same key followed by a computation
+	on a private value; modifying arrays taken earlier (7) is no store operation at all"""
+	out = []
+	for o in ops:
+		if o[0] == 6:
+			out.append([1, o[1] if len(o) > 1 else 0])
+		elif o[0] != 7:
+			out.append(o)
+	return out
+
+
+# ------------------------------------------------------------------------------------------------
 # signature store
 # ------------------------------------------------------------------------------------------------
 
@@ -578,6 +797,8 @@ def _run_store(case, gs, shared):
 	sigs = None
 	is_open = False
 	obs, problems = [], []
+	held = []          # arrays the caller took from the signature object (they outlive the handle)
+	eff = 0            # effective in-place modifications of such arrays
 
 	def rejected(e):
 		return 'no write intent' in str(e)
@@ -654,6 +875,32 @@ def _run_store(case, gs, shared):
 						is_open = False
 					else:
 						resp = [3]
+				elif c == 6:
+					# take arrays from the signature object and post-process them in place (for the store: a read)
+					k = o[1]
+					sel, mut = (o[2] if len(o) > 2 else 0), (o[3] if len(o) > 3 else 0)
+					ix, w = (o[4] if len(o) > 4 else k), (o[5] if len(o) > 5 else 0)
+					if not is_open:
+						try:
+							got = _take(sigs, sel, ix, w)
+						except Exception:
+							got = None
+							resp = [3]
+						if got is not None:
+							held.extend(got)
+							eff += _mutate_all(got, mut)
+							resp = [9, 'read on a closed handle succeeded']
+						del got
+					else:
+						got = _take(sigs, sel, ix, w)
+						held.extend(got)
+						eff += _mutate_all(got, mut)
+						del got
+						v = sigs.group.attrs.get(f'c18_{k}')
+						resp = [1, [] if v is None else [int(v)]]
+				elif c == 7:
+					# modify once more, in place, every array taken so far (possibly after the handle was closed)
+					eff += _mutate_all(held, o[1] if len(o) > 1 else 0)
 			except Exception as e:
 				if c in (2, 3) and rejected(e):
 					resp = [2]
@@ -668,7 +915,13 @@ def _run_store(case, gs, shared):
 			if shared:
 				df = _diff(base, now)
 				if df:
-					problems.append('after operation %d %s the data base directory changed: %s' % (i, o, '; '.join(df)))
+					what = ''
+					if c == 6:
+						what = ' (%s, then %s on what was returned)' % (SEL_NAMES[(o[2] if len(o) > 2 else 0) % NSEL],
+						                                                MUT_NAMES[(o[3] if len(o) > 3 else 0) % NMUT])
+					elif c == 7:
+						what = ' (%s on the arrays taken earlier)' % MUT_NAMES[(o[1] if len(o) > 1 else 0) % NMUT]
+					problems.append('after operation %d %s%s the data base directory changed: %s' % (i, o, what, _with_damage(df, gs)))
 				if c in (2, 3) and resp == [0]:
 					problems.append('operation %d %s: a write through the signature handle was accepted' % (i, o))
 				if is_open and hm != 0:
@@ -682,12 +935,15 @@ def _run_store(case, gs, shared):
 		except Exception:
 			pass
 		del sigs
-	return obs, problems
+		del held[:]       # reference counting frees the arrays (and whatever they are windows onto) here
+		if problems:
+			gc.collect()
+	return obs, problems, eff
 
 
 def k_store(ctx, cases):
 	env = _env()
-	reqs = [(1802, [0, [], -1, c['ops']]) for c in cases]
+	reqs = [(1802, [0, [], -1, _model_sops(c['ops'])]) for c in cases]
 	models = ctx.model(reqs) if ctx.model_ok else [None] * len(cases)
 	for c, m in zip(cases, models):
 		shared = _store_shared(c)
@@ -697,19 +953,21 @@ def k_store(ctx, cases):
 			pd = _private()
 			gs = os.path.join(pd, 'ref-signatures.gs')
 		try:
-			obs, problems = _run_store(c, gs, shared)
+			obs, problems, eff = _run_store(c, gs, shared)
 		finally:
 			if not shared:
 				shutil.rmtree(pd, ignore_errors=True)
 		ctx.count('store:' + ('read-mode' if shared else 'contrast-r+'))
-		nontrivial = any(o[0] in (2, 3) and ob[2] != -1 for o, ob in zip(c['ops'], obs))
+		if eff:
+			ctx.count('store:effective-in-place-modifications', eff)
+		nontrivial = any(o[0] in (2, 3) and ob[2] != -1 for o, ob in zip(c['ops'], obs)) or eff > 0
 		ctx.case(c, nontrivial=nontrivial)
 		if shared and problems:
 			ctx.violation('store', c, problems[0], impl=obs, model=m)
 			_restore()
 			continue
 		if shared and _diff(env['base'], _snap(env['db'])):
-			ctx.violation('store', c, 'after closing the handle the directory differs: ' + '; '.join(_diff(env['base'], _snap(env['db']))), impl=obs)
+			ctx.violation('store', c, 'after closing the handle the directory differs: ' + _with_damage(_diff(env['base'], _snap(env['db'])), env['gs']), impl=obs)
 			_restore()
 			continue
 		if m is None or m == [2]:
@@ -717,6 +975,8 @@ def k_store(ctx, cases):
 				ctx.broke('correspondence store', f'model rejected the request for {c}')
 			continue
 		mo = [[r if r[0] != 1 else [1, list(r[1])], ch, h] for r, ch, h in m]
+		# operation 7 (a computation on arrays the caller already holds) is no operation of the store machine
+		obs = [ob for o, ob in zip(c['ops'], obs) if o[0] != 7]
 		if mo != obs:
 			i = next((i for i, (a, b) in enumerate(zip(mo, obs)) if a != b), min(len(mo), len(obs)))
 			ctx.broke('correspondence store (signature handle vs store machine)',
@@ -760,7 +1020,7 @@ def _model_inv(inv):
 	elif code == 6:
 		c = [6, inv.get('af', 1), inv['ops']]
 	elif code == 7:
-		c = [7, inv['ops']]
+		c = [7, _model_sops(inv['ops'])]
 	else:
 		c = [code]
 	return [c, _fp(inv)]
@@ -790,6 +1050,7 @@ def _run_invocation(inv, idx):
 	rec['fail_at'] = f['at'] if f.get('kind') == 'sql' else None
 	status = 'ok'
 	detail = ''
+	eff = 0
 	try:
 		if cmd in ('query', 'querysig', 'dist', 'create', 'info-db', 'info-file', 'tree'):
 			if cmd == 'query':
@@ -819,10 +1080,36 @@ def _run_invocation(inv, idx):
 				_ = rdb.signatures[i]
 			for g in rdb.genomes[:n]:
 				_ = g.taxon, g.key
-			if inv.get('libquery'):
-				sub = rdb.signatures[[0, 1]]
-				_ = query(rdb, sub, QueryParams())
-			del rdb
+			held = []
+			try:
+				if inv.get('libquery'):
+					qsl = inv.get('qslice')
+					if qsl:
+						# query signatures = a contiguous block of the reference signatures, post-processed in place afterwards
+						a = int(qsl[0]) % len(rdb.signatures)
+						sub = rdb.signatures[a:min(len(rdb.signatures), a + 1 + int(qsl[1]) % 3)]
+					else:
+						sub = rdb.signatures[[0, 1]]
+					_ = query(rdb, sub, QueryParams())
+					if qsl:
+						held.append(sub.values)
+						eff += _mutate_all([sub.values], qsl[2] if len(qsl) > 2 else 0)
+					del sub, _
+				# the caller inspects reference signatures and post-processes ITS arrays in place: [sel, mut, i, w]
+				for st in inv.get('mut', []):
+					st = list(st) + [0] * (4 - len(st))
+					got = _take(rdb.signatures, st[0], st[2], st[3])
+					held.extend(got)
+					eff += _mutate_all(got, st[1])
+					del got
+				if inv.get('close'):
+					rdb.signatures.close()
+					rdb.session.close()
+					if inv.get('mut_after_close') is not None:
+						eff += _mutate_all(held, inv['mut_after_close'])
+			finally:
+				del held[:]
+				del rdb
 		elif cmd == 'libsession':
 			case = dict(how='default', af=inv.get('af', 1), ops=inv['ops'])
 			obs, problems = _run_session(case, gdb, True)
@@ -831,7 +1118,7 @@ def _run_invocation(inv, idx):
 				detail = problems[0][1]
 		elif cmd == 'libstore':
 			case = dict(ops=[[0, -1]] + inv['ops'])
-			obs, problems = _run_store(case, gs, True)
+			obs, problems, eff = _run_store(case, gs, True)
 			if problems:
 				status = 'problem'
 				detail = problems[0]
@@ -844,7 +1131,7 @@ def _run_invocation(inv, idx):
 	finally:
 		rec['fail_at'] = None
 	gc.collect()
-	return dict(status=status, detail=detail)
+	return dict(status=status, detail=detail, eff=eff)
 
 
 def k_history(ctx, cases):
@@ -876,7 +1163,12 @@ def k_history(ctx, cases):
 			if r['status'] == 'problem':
 				bad = f'{name}: {r["detail"]}'
 			elif df:
-				bad = f'{name} changed the data base directory: ' + '; '.join(df)
+				bad = f'{name} changed the data base directory: ' + _with_damage(df, env['gs'])
+				if inv.get('mut') or inv.get('qslice'):
+					steps_txt = [f'{SEL_NAMES[int(x[0]) % NSEL]} then {MUT_NAMES[int(x[1]) % NMUT]}' for x in inv.get('mut', []) if len(x) > 1]
+					bad += f' [in-place post-processing of arrays obtained from db.signatures: {steps_txt}' + \
+					       (f'; query signatures db.signatures[a:b], .values then {MUT_NAMES[int(inv["qslice"][2]) % NMUT]}'
+					        if inv.get('qslice') and len(inv['qslice']) > 2 else '') + ']'
 			elif stm:
 				bad = f'{name}: write statement(s) {stm} reached the cursor of the genome file'
 			elif journal:
@@ -898,6 +1190,10 @@ def k_history(ctx, cases):
 				failed += 1
 			if inv['cmd'] in ('libsession', 'libstore'):
 				edits += 1
+			elif r.get('eff'):
+				edits += 1      # arrays obtained from db.signatures were effectively modified in place
+			if r.get('eff'):
+				ctx.count('history:effective-in-place-modifications', r['eff'])
 			# a failing invocation was announced but the command succeeded (or vice versa): the generator's
 			# idea of what fails is not part of the property -- only counted
 			if bool(inv.get('fail')) != (r['status'] == 'failed'):
@@ -979,9 +1275,17 @@ def _rand_ops(rng, n, raw=False):
 	return ops
 
 
-def _rand_sops(rng, n, modes):
+def _rand_take(rng):
+	"""[6, key, selection, in-place operation, index, width]"""
+	return [6, rng.randrange(0, 6), rng.randrange(NSEL), rng.randrange(NMUT), rng.randrange(0, 213), rng.randrange(0, 8)]
+
+
+def _rand_sops(rng, n, modes, inplace=0.0):
 	ops = []
 	for _ in range(n):
+		if inplace and rng.random() < inplace:
+			ops.append(_rand_take(rng) if rng.random() < 0.75 else [7, rng.randrange(NMUT)])
+			continue
 		c = rng.choice([0, 1, 1, 2, 2, 3, 4, 5])
 		if c == 0:
 			ops.append([0, rng.choice(modes)])
@@ -1010,13 +1314,22 @@ def _rand_inv(rng, allow_tree):
 		inv['fmt'] = rng.choice(['csv', 'json', 'archive'])
 	if cmd == 'load':
 		inv['libquery'] = rng.random() < 0.5
+		if rng.random() < 0.7:
+			inv['mut'] = [[rng.randrange(NSEL), rng.randrange(NMUT), rng.randrange(0, 213), rng.randrange(0, 8)]
+			              for _ in range(rng.randint(1, 3))]
+		if inv['libquery'] and rng.random() < 0.5:
+			inv['qslice'] = [rng.randrange(0, 213), rng.randrange(0, 3), rng.randrange(NMUT)]
+		if rng.random() < 0.4:
+			inv['close'] = True
+			if rng.random() < 0.6:
+				inv['mut_after_close'] = rng.randrange(NMUT)
 	if cmd in ('info-db', 'info-file'):
 		inv['flags'] = rng.choice([[], ['-j'], ['-i'], ['-j', '-p']])
 	if cmd == 'libsession':
 		inv['af'] = rng.choice([0, 1, 1])
 		inv['ops'] = _rand_ops(rng, rng.randint(1, 8))
 	if cmd == 'libstore':
-		inv['ops'] = _rand_sops(rng, rng.randint(1, 6), [-1, 0])
+		inv['ops'] = _rand_sops(rng, rng.randint(1, 6), [-1, 0], inplace=0.3)
 	# failing variants
 	p = rng.random()
 	if cmd in ('query', 'querysig', 'load') and p < 0.25:
@@ -1103,16 +1416,59 @@ def generate(ctx):
 	for _ in range(ctx.pick(40, 400)):
 		yield 'store', dict(ops=[[0, rng.choice([-1, 0])]] + _rand_sops(rng, rng.randint(2, 14), [-1, 0]))
 		ctx.count('stream:store-random')
+	# ---- store: arrays handed out by the opened signature object, modified in place by the caller ------------
+	# every (selection form x in-place operation) pair, on a handle opened by default / with an explicit 'r'; in
+	# half of the cases the arrays are modified once more after the handle was closed
+	n = 0
+	for sel in range(NSEL):
+		for mut in range(NMUT):
+			ix, w = rng.randrange(0, 213), rng.randrange(0, 8)
+			ops = [[0, rng.choice([-1, 0])], [6, rng.randrange(0, 6), sel, mut, ix, w], [5]]
+			if (sel + mut) % 2:
+				ops.append([7, (mut + 1 + sel) % NMUT])
+			yield 'store', dict(ops=ops)
+			n += 1
+	ctx.count('stream:store-inplace', n)
+	ctx.extra['exhaustive_scope'] += (f'; store-inplace: every pair (one of {NSEL} ways to obtain arrays from the opened signature '
+	                                  f'object, one of {NMUT} numpy in-place operations) at a random index')
+	for _ in range(ctx.pick(60, 600)):
+		yield 'store', dict(ops=[[0, rng.choice([-1, 0])]] + _rand_sops(rng, rng.randint(2, 12), [-1, 0], inplace=0.6))
+		ctx.count('stream:store-inplace-random')
 	yield 'store', dict(ops=[[0, 1]])
 	yield 'store', dict(ops=[[0, 1], [2, 0, 6], [5]])
 	for _ in range(ctx.pick(10, 80)):
-		yield 'store', dict(ops=[[0, 1]] + _rand_sops(rng, rng.randint(1, 8), [1]))
+		yield 'store', dict(ops=[[0, 1]] + _rand_sops(rng, rng.randint(1, 8), [1], inplace=0.2))
 		ctx.count('stream:store-contrast-r+')
 	# ---- histories ------------------------------------------------------------------------------
 	yield 'history', dict(invs=[dict(cmd='query', n=2, q=[0, 1], fmt='csv'), dict(cmd='dist', n=2, q=[2, 3]),
 	                            dict(cmd='info-db', flags=[]), dict(cmd='tree'), dict(cmd='load', n=3, libquery=True),
 	                            dict(cmd='libsession', af=1, ops=_mk_ops(['a', 'q', 'm1', 'd2', 'f', 'c', 'q', 't', 'r', 'a', 'c', 'x', 't'])),
 	                            dict(cmd='libstore', ops=[[2, 0, 1], [0, 0], [3, 0]]), dict(cmd='query', n=1, q=[4], fmt='json')])
+	# ---- histories: a client loads the data base, queries it, inspects signatures and post-processes them in place --
+	yield 'history', dict(invs=[dict(cmd='load', n=2, libquery=True, qslice=[40, 1, 1], mut=[[0, 0, 3, 0], [0, 0, 17, 0], [3, 1, 100, 1]],
+	                                 close=True, mut_after_close=5),
+	                            dict(cmd='query', n=1, q=[0], fmt='csv'), dict(cmd='info-db', flags=['-j'])])
+	for _ in range(ctx.pick(14, 100)):
+		invs = []
+		for _ in range(rng.randint(1, 2)):
+			inv = dict(cmd='load', n=rng.randint(1, 3), libquery=rng.random() < 0.35)
+			inv['mut'] = [[rng.randrange(NSEL), rng.randrange(NMUT), rng.randrange(0, 213), rng.randrange(0, 8)]
+			              for _ in range(rng.randint(1, 4))]
+			if inv['libquery'] and rng.random() < 0.6:
+				inv['qslice'] = [rng.randrange(0, 213), rng.randrange(0, 3), rng.randrange(NMUT)]
+			if rng.random() < 0.5:
+				inv['close'] = True
+				if rng.random() < 0.6:
+					inv['mut_after_close'] = rng.randrange(NMUT)
+			if rng.random() < 0.15:
+				inv['fail'] = dict(kind='sql', at=rng.randint(1, 9))
+			invs.append(inv)
+		invs.append(rng.choice([dict(cmd='info-db', flags=['-j']), dict(cmd='info-file', flags=[]),
+		                        dict(cmd='libstore', ops=_rand_sops(rng, rng.randint(1, 5), [-1, 0], inplace=0.5)),
+		                        dict(cmd='querysig')]))
+		rng.shuffle(invs)
+		yield 'history', dict(invs=invs)
+		ctx.count('stream:history-inplace')
 	trees = ctx.pick(2, 8)
 	for _ in range(ctx.pick(36, 200)):
 		invs = []
